@@ -88,8 +88,18 @@ def r4_1(ctx: Ctx, rule: str = "R4.1") -> RuleResult:
             rr.ok(fn.loc(call), f"{fn.qualname}: encode {pairs}")
     if not encoders:
         raise AnalysisError(f"{rule}: no reference-token encoder found in pointer.py")
-    if len(decoders) < 2:
-        raise AnalysisError(f"{rule}: expected at least two decoding sites (_parse, __truediv__)")
+    if not decoders:
+        raise AnalysisError(f"{rule}: no reference-token decoder found in pointer.py")
+    # both entry points that take pointer text decode its tokens (directly or through a helper)
+    dec_funcs = {fn.qualname for fn, _, _ in decoders}
+    for name in ("JSONPointer._parse", "JSONPointer.__truediv__"):
+        fn = ctx.repo.require_func(name)
+        reach = ctx.callgraph.reachable([fn])
+        if dec_funcs & set(reach):
+            rr.ok(fn.loc(), f"{fn.qualname} decodes reference tokens via {sorted(q.split('.')[-1] for q in dec_funcs & set(reach))}")
+        else:
+            rr.bad(fn, fn.node, f"{fn.qualname} takes pointer text but never decodes `~0` / `~1`",
+                   construct=f"{fn.name}: no token decoding")
     return rr
 
 
